@@ -66,10 +66,8 @@ class TLCResult:
             pass
         self.generated = int(m.group(1)) if m else 0
         self.distinct = int(m.group(2)) if m else 0
-        self.rejects = [parse_tla_value(l.strip()) for l in out.splitlines()
-                        if l.strip().startswith('<<"REJECT"')]
-        self.notes = [parse_tla_value(l.strip()) for l in out.splitlines()
-                      if l.strip().startswith('<<"NOTE"')]
+        self.rejects = extract_tagged(out, "REJECT")
+        self.notes = extract_tagged(out, "NOTE")
         self.ok = (rc == 0 and "Model checking completed. No error has been found." in out) \
             or (rc == 0 and "Finished computing initial states" in out and "Error:" not in out)
 
@@ -172,6 +170,42 @@ def parse_tla_value(s):
         raise ValueError("cannot parse at %d: %r" % (pos, s[pos:pos + 40]))
 
     return val()
+
+
+def extract_tagged(out, tag):
+    """All values of the form << "TAG", ... >> printed by TLC (possibly pretty-printed over several lines),
+    found by bracket matching; duplicates removed, order kept."""
+    res, seen = [], set()
+    for m in re.finditer(r'<<\s*"%s"' % re.escape(tag), out):
+        i = m.start()
+        depth = 0
+        j = i
+        n = len(out)
+        instr = False
+        while j < n:
+            c = out[j]
+            if instr:
+                if c == "\\":
+                    j += 1
+                elif c == '"':
+                    instr = False
+            elif c == '"':
+                instr = True
+            elif out.startswith("<<", j):
+                depth += 1
+                j += 1
+            elif out.startswith(">>", j):
+                depth -= 1
+                j += 1
+                if depth == 0:
+                    break
+            j += 1
+        text = out[i:j + 1]
+        if text in seen:
+            continue
+        seen.add(text)
+        res.append(parse_tla_value(text))
+    return res
 
 
 def run_tlc(module, cfg, scratch, env=None, workers=1, timeout=1800, extra=(),
